@@ -20,7 +20,7 @@ import (
 	"verifharness/gal"
 )
 
-const header = "From Coq Require Import Uint63.\nFrom CSS Require Import Lib.Base Lib.Cases Model.Diff Model.DiffCases."
+const header = "From Coq Require Import Uint63.\nFrom CSS Require Import Lib.Base Lib.Cases Model.Diff Model.DiffObjs Model.DiffCases."
 
 const siteDiff = "pkg/diff/diff.go:Diff"
 const siteAnalyze = "pkg/diff/analyze.go:Analyze"
@@ -1033,13 +1033,17 @@ func runIntersect(c *gal.Ctx, a, b pkgbytes.Range) {
 // ---------------------------------------------------------------- main
 
 func main() {
-	c := gal.New("C20", header, 400)
+	c := gal.New("C20", header, 410)
 	w := &world{c: c}
 
 	fixedCases(c)
 
 	nDiff := c.Scale(3400, 40000)
 	for i := 0; i < nDiff; i++ {
+		if i%22 == 0 {
+			// a session on image objects with a history (sessions.go), spread over the shards
+			oneSession(c, w, i)
+		}
 		n := w.size()
 		phys := w.intn(3) == 0
 		base := baseOf(phys, n)
@@ -1202,6 +1206,7 @@ func main() {
 
 	c.Finish("Diff: images of 0..4096 bytes (uniform / few-valued / 0xFF- and 0x00-padded) with planted differing runs (sparse, dense, at the image borders, across the borders of requested ranges), 0..1000 requested ranges (unsorted, overlapping, adjacent, duplicate, empty, touching both image ends), ignore sets (none, {00}, {FF}, both, bytes taken from differing positions), identity and PhysMemMapper addressing, plus malformed range lists (past the end, wrapping 2^64) and images of different length; " +
 		"Analyze: on the ranges Diff reported or on random range lists, with 0..7 measurements of 0..4 chunks placed around the entries (touching, overlapping one byte, inside, containing, empty, ForceBytes), plus lists of 1001..1300 ranges; Range.Intersect on raw values. " +
+		"Sessions: 2..4 image objects (biosimage.New / NewFromParsed) over a pair of images of 0..4096 bytes, a third variant and a second object over the same bytes; plain images, vendor containers (fingerprint header of 42..341 bytes in front of the image, which the parser strips), containers without the image magic and all-zero images (both unparsable); 4..10 chained calls on the SAME objects: Parse (directly, via DMITable, via Info), Size, Diff, Analyze (on what Diff reported or on random ranges), roles swapped, one object as both images, the same question asked again after the state changed; every Diff/Analyze step judged by the byte-map oracle against the bytes the objects were built from, every object's Content compared with those bytes after every step. " +
 		"A case is non-trivial when the call succeeded and returned at least one range/entry (Intersect: both ranges non-empty); distinct = distinct Gallina literal")
 }
 
